@@ -16,3 +16,4 @@ pub mod c18;
 pub mod storage;
 pub mod c15;
 pub mod c14;
+pub mod ctl;
